@@ -79,8 +79,10 @@ def toks(res):
 
 
 def kind(cls):
-    if cls.startswith("ok="):
+    if cls.startswith("ok=") or cls.startswith("reads:ok"):
         return "ok"
+    if cls.startswith("reads:shortbuf"):
+        return "shortbuf"
     if cls.startswith("kafka:"):
         return "kafka"
     return cls.split(":")[0]
@@ -105,6 +107,62 @@ def predicate(c):
         ks = [kind(x) for x, _ in r]
         if ks[0] != "kafka" or any(k != "ok" for k in ks[1:]) or any(x != "0" for _, x in r):
             bad.append((KEY_CROSS, "after a produce error the following heartbeats must each read their own frame: " + c["go"]))
+        return bad
+    if "reads" in f:
+        # Batch.Read / Conn.Read / Conn.ReadMessage, Close, then further operations: Close after
+        # io.ErrShortBuffer keeps the Conn, the reader sits at the next frame boundary (the next
+        # operations succeed: their frames are success responses), the Conn offset is rolled back
+        # to the message that did not fit
+        ks = [kind(x) for x, _ in r]
+        spec = c["args"].split(" ")[1].split(",")[0].split(":")
+        off = int(spec[2], 16) if not spec[2].startswith("-") else -int(spec[2][1:], 16)
+        want_short = f.get("cap") in ("zero", "one", "short")
+        tgt = int(f.get("target", "0"))
+        if ks[0] != ("shortbuf" if want_short else "ok") or r[0][1] != "0":
+            bad.append(("C11-short-buffer-read-outcome", f"{op} cap={f.get('cap')}: first operation returned {r[0][0][:80]}~{r[0][1]}"))
+        else:
+            got_off = r[0][0].split(":")[2]
+            exp = off + tgt + (0 if want_short else 1)
+            if int(got_off, 16) != exp:
+                bad.append(("C11-short-buffer-offset-not-rolled-back", f"{op} cap={f.get('cap')} target={tgt}: Conn offset after Close {got_off}, expected {exp:x}"))
+        for i, k in enumerate(ks[1:], 2):
+            if k != "ok" or r[i - 1][1] != "0":
+                bad.append(("C11-short-buffer-read-leaves-stream-misaligned",
+                            f"{op} msgset={f.get('msgset')} cap={f.get('cap')} target={tgt}: after {r[0][0][:40]} operation #{i} ({f.get('next') if i == 2 else f.get('next2')}) "
+                            f"returned {r[i - 1][0][:60]} instead of succeeding"))
+                break
+        return bad
+    if "nego" in f:
+        # real version negotiation (no priming): the version map is cached only after a
+        # successful ApiVersions exchange; after one that failed with a broker error the next
+        # operation asks again and runs at the version a fresh Conn would choose
+        ks = [kind(x) for x, _ in r]
+        specs = [x.split(":") for x in c["args"].split(" ")[1].split(",")]
+        kd = f.get("kind")
+        for i, (k, sp) in enumerate(zip(ks, specs)):
+            if kd == "cut":
+                break
+            expect_nomatch = sp[1] == "-"
+            if r[i][0].startswith("fmt:7") != expect_nomatch:
+                key = "C11-versions-cached-after-failed-apiversions" if kd == "errcode" else "C11-version-negotiation"
+                bad.append((key, f"{kd} code={f.get('code')} list={f.get('list')}: operation #{i + 1} ({sp[0]}) returned {r[i][0][:60]}"
+                                 + ("" if expect_nomatch else " although the broker supports a version the Conn offers")))
+                return bad
+        if kd == "errcode" and f.get("list") != "explicit":
+            if ks[0] != "kafka" or r[0][1] != "0":
+                bad.append(("C11-version-negotiation", f"ApiVersions error code {f.get('code')}: operation #1 returned {r[0][0][:50]}~{r[0][1]}"))
+            elif any(k != "ok" for k in ks[1:]):
+                bad.append(("C11-versions-cached-after-failed-apiversions",
+                            f"after the implicit ApiVersions exchange failed with code {f.get('code')} (list {f.get('list')}) the next operations returned "
+                            + " ".join(x[:40] for x, _ in r[1:]) + " instead of behaving as on a fresh Conn"))
+        elif kd == "table":
+            for i, (k, sp) in enumerate(zip(ks, specs)):
+                if sp[1] != "-" and k != "ok":
+                    bad.append(("C11-version-negotiation", f"table max={f.get('max')}: operation #{i + 1} ({sp[0]} v{sp[1]}) returned {r[i][0][:60]}"))
+                    break
+        elif kd == "cut":
+            if ks[0] in ("ok", "kafka") or any(k in ("ok", "kafka") for k in ks[1:]) or r[-1][1] != "1":
+                bad.append(("C17-apiversions-cut-during-negotiation", "cut ApiVersions response: " + c["go"][:120]))
         return bad
     if "framing" in f:
         # C11: "after a transport-level or framing error every later operation on that Conn
@@ -325,11 +383,11 @@ def evaluate(cases, res, want):
     ev, dn, hist = L.coverage_counts(sel, trivial_feats=("",))
     # non-trivial: an error code other than 0, or a cut
     dn = len({c["line"] for c in sel if ("cut" in feats_of(c)) or ("drain" in feats_of(c) and not c["args"].endswith(" -"))
-              or feats_of(c).get("code", "0") not in ("0", True) or "cross" in feats_of(c) or "framing" in feats_of(c)})
+              or feats_of(c).get("code", "0") not in ("0", True) or "cross" in feats_of(c) or "framing" in feats_of(c) or "nego" in feats_of(c) or "reads" in feats_of(c)})
     hist = {}
     for c in sel:
         f = feats_of(c)
-        for k in ("op", "field", "code", "cutpos", "msgset", "kind"):
+        for k in ("op", "field", "code", "cutpos", "msgset", "kind", "cap", "list"):
             if k in f:
                 hist[f"{k}={f[k]}"] = hist.get(f"{k}={f[k]}", 0) + 1
     return dict(evaluations=ev, distinct_nontrivial=dn, hist=hist, failures=failures, notes=notes, sel=sel)
@@ -349,7 +407,12 @@ RULE = ("PART A (exhaustive, no randomness in the structure): every (operation, 
         "every (operation, version)): a response with a foreign correlation id / a size field 1 or 2 too small / 3 too large then EOF / "
         "cut at 3 positions, followed by TWO further operations of different kinds on the same Conn, each case under a 2 s watchdog "
         "(a call that does not return is class 'hang', a mismatch against the model and a property violation; after 3 hung cases the "
-        "rest are NOT RUN); compared with conn_do_i, which threads Conn.inflight.")
+        "rest are NOT RUN); compared with conn_do_i, which threads Conn.inflight.  PART E (no priming: the scripted peer answers the implicit ApiVersions "
+        "requests of loadVersions): tables forcing every supported version of every negotiated API, in-between / too low / absent "
+        "entries; error code {35,1,-1} with empty / non-empty list then a second negotiating operation; explicit ApiVersions; cut; "
+        "3 operations per case, compared with conn_nop.  PART F: fetch v2/v5/v10 over magic-0/1/2 sets, Batch.Read with a buffer of "
+        "0 / 1 / len-1 / len / len+3 bytes at the first / middle / last message (earlier ones read by ReadMessage or Read), Close, then "
+        "heartbeat + list-offsets or the documented retry + heartbeat; Conn.Read, Conn.ReadMessage.")
 
 
 def correspondence(ctx):
